@@ -2014,7 +2014,9 @@ class C01(EngineCheck):
             "required / at-least-one / optional edges, fault plan, pre-seeded subset, targets) x driver (dr.run with the "
             "engine's own seeded tie-break, run_components on a seeded linear extension, run_incremental, run_all, run_all on "
             "SimPool with a seeded walk/PCT schedule; entry forms graph dict / list / single component / the default "
-            "group's own table; component objects that test False; 0.4% wide programs with 65-140 sub-graphs); "
+            "group's own table (as a filtered copy, or the table object itself after the default group was evaluated once before "
+            "the late registrations); component objects that test False; class-level requires / optional of a component type; "
+            "supplied values incl. None; 0.4% wide programs with 65-140 sub-graphs; no pool task may be pending when run_all returns); "
             "non-trivial = more than one component in the graph, or a fault fired, "
             "or a pool schedule with pre-emptions; distinct = distinct digest of (event log, final broker, forced order, "
             "switch list)")
@@ -2047,7 +2049,8 @@ class C03(EngineCheck):
     thorough = dict(runs=10000000, wall=1500)
     rule = ("case = generated program x fault plan (deliberate skip, content error, failed command, timeout raised or delivered "
             "by the simulated alarm at a seeded instant, ValueError/KeyError/custom exception, exception with failing "
-            "__str__, unhashable exception, per-element faults of multi-output parsers, failing observers) x store_skips x "
+            "__str__, unhashable exception, ONE exception object raised by several components, per-element faults of multi-output "
+            "parsers, failing observers; 0.04% chains of 300-700 stacked datasources on a failing one) x store_skips x "
             "debug logging x driver; oracle = reference model of values + attribution table + traceback presence + observer "
             "counts; non-trivial = at least one fault actually fired or several components; distinct = digest of event log + "
             "final broker")
